@@ -94,7 +94,8 @@ pub struct CbSpec {
     pub salt: u32,
     /// chars of the remainder to bump (0..=2)
     pub bump: u8,
-    /// attachment form: 0 positional fn label, 1 inline closure positional, 2 `callback = label`, 3 `callback = closure`
+    /// attachment form: 0 positional fn label, 1 inline closure positional, 2 `callback = label`, 3 `callback = closure`,
+    /// 4 / 5 closure whose body starts with a group (positional / named), 6 `callback=|lex| ..` written without blanks
     pub form: u8,
 }
 
